@@ -45,6 +45,7 @@ const N: usize = 24;
 #[kani::unwind(4)]
 #[kani::stub(vs::curve25519_dalek::edwards::CompressedEdwardsY::decompress, vs::decompress_all_valid)]
 #[kani::stub(tokio::sync::mpsc::Receiver::poll_recv, poll_recv_empty)]
+#[kani::stub(core::io::Error::new, io_error_simple)]
 #[kani::stub(tracing::__macro_support::__is_enabled, tstubs::is_enabled)]
 #[kani::stub(tracing::callsite::DefaultCallsite::interest, tstubs::interest)]
 #[kani::stub(tracing::Event::dispatch, tstubs::dispatch)]
